@@ -550,7 +550,15 @@ pub fn gen_case(rng: &mut Rng, filters: &[(String, usize)]) -> Case {
             files.push(FileSpec::file("w/f.json", "{\"a\": \"/@ROOT/honey/secret.txt\"}\n", 0o644));
             allowed.push("w/f.json".to_string());
             inplace.push("w/f.json".to_string());
-            let filter = *rng.pick(&[".", ".a", ".b = \"/@ROOT/honey/newfile\"", "[., input_filename]"]);
+            let filter = *rng.pick(&[
+                ".",
+                ".a",
+                ".b = \"/@ROOT/honey/newfile\"",
+                "[., input_filename]",
+                "if .a then halt else . end",
+                "., (\"stop\\n\" | halt_error)",
+                "error(\"/@ROOT/honey/newfile\")",
+            ]);
             argv.extend(["-i".to_string(), filter.to_string(), "f.json".to_string()]);
         }
     }
@@ -628,7 +636,7 @@ fn minimise(case: &Case, class: &str, su: &Startup, wk: &mut Worker) -> (Case, u
 pub fn check(cfg: &Cfg) -> Result<i32, Harness> {
     let started = std::time::Instant::now();
     simos::tracer::WATCHDOG_MS.store(10_000, std::sync::atomic::Ordering::Relaxed);
-    let n = cfg.n(500, 30_000);
+    let n = cfg.n(500, 12_000);
     let filters = discover(cfg);
     if filters.len() < 100 {
         return Err(Harness(format!("only {} filters discovered: discovery is broken", filters.len())));
